@@ -112,6 +112,12 @@ func (g *c19Gen) Next(w *World, n int) *Step {
 		pid = []string{"", " ", "no-at-sign", "@", "a@b", "x@y.C0M", "1abc", "\t", "a@b.co\x00", strings.Repeat("a", 300) + "@x.co"}[r.Intn(10)]
 	}
 	pw := g.password(c)
+	if dupOf >= 0 && r.Chance(1, 3) {
+		// somebody who knows the existing account's password "registers" it again
+		if real := w.KB.Password[dupOf]; real != "" {
+			pw = real
+		}
+	}
 	f := map[string]string{w.pidField(): pid, "password": pw, "confirm_password": pw}
 	if c.UseUsername {
 		// the e-mail address is an optional extra field in username mode
